@@ -721,7 +721,65 @@ func VReplayCat(task engine.SeqTask) (res engine.SeqResult) {
 	return
 }
 
+// vCatLarge: a catalogue larger than the listing page sizes used inside the manager (1000): n datasets are created,
+// some deleted and re-created, one written to; then the full catalogue comparison.
+func vCatLarge(n int) (res engine.SeqResult) {
+	defer func() {
+		if r := recover(); r != nil {
+			res.Viol = append(res.Viol, engine.Violation{Key: "panic|" + fmt.Sprint(r), What: fmt.Sprintf("panic in the large catalogue: %v", r)})
+		}
+	}()
+	w := VOpenWorld(VNewScratchDir("catlarge"))
+	defer w.Destroy()
+	h := w.NewHist()
+	var names []string
+	variants := map[string]int{}
+	pubNs := map[string][]string{}
+	chk := &VCheck{H: h, Last: fmt.Sprintf("%d datasets", n)}
+	for i := 0; i < n; i++ {
+		name := fmt.Sprintf("L%04d", i)
+		names = append(names, name)
+		if _, err := w.Dsm.CreateDataset(h.DsName(name), nil); err != nil {
+			chk.fail("C19:create-rejected", err.Error(), nil)
+			break
+		}
+		h.M.Create(name)
+	}
+	// delete and re-create two early ones (their tombstones and new meta-entities come late in core.Dataset's order)
+	for _, name := range []string{"L0001", "L0002"} {
+		if err := w.Dsm.DeleteDataset(h.DsName(name)); err != nil {
+			chk.fail("C19:delete-rejected", err.Error(), nil)
+		}
+		h.M.Delete(name)
+	}
+	if _, err := w.Dsm.CreateDataset(h.DsName("L0001"), nil); err != nil {
+		chk.fail("C19:create-rejected", err.Error(), nil)
+	}
+	h.M.Create("L0001")
+	last := names[len(names)-1]
+	if _, err := h.applyWriteT(VOp{K: "batch", DS: last, Ents: []VEnt{{"e1", 0}, {"e2", 0}}}); err != nil {
+		chk.fail("C19:write-rejected", err.Error(), nil)
+	}
+	chk.checkCatalogue(names, variants, pubNs)
+	w.Restart()
+	chk.Last += " ; restart"
+	chk.checkCatalogue(names, variants, pubNs)
+	res.Viol = chk.Viol
+	res.Checks = chk.Checks
+	res.Key = "large"
+	return
+}
+
 func init() {
+	engine.RegisterWorker("cat-large", func(args []string) {
+		engine.ServeWorker(func(task []byte) interface{} {
+			var t struct {
+				N int `json:"n"`
+			}
+			_ = json.Unmarshal(task, &t)
+			return vCatLarge(t.N)
+		})
+	})
 	engine.RegisterWorker("cat", func(args []string) {
 		defer func() {
 			if vWorkerWorld != nil {
@@ -737,7 +795,7 @@ func init() {
 		})
 	})
 	engine.RegisterCheck("C19", func(r *engine.Run) {
-		r.Rule = "SEQ: every sequence up to the stated depth over {create (plain / public namespaces / proxy), delete, rename, re-create, batches and transactions with repeated, re-stored and globally-known ids, meta-entity update of public namespaces, restart}; after every history the dataset list, the meta-entities in core.Dataset (exactly one live per existing dataset, only deleted ones for removed names, name and settings carried, items = distinct ids ever stored per the reference model) and GetDatasetDetails are compared. SCHED: concurrent writers whose counter updates funnel through core.Dataset, final catalogue compared"
+		r.Rule = "SEQ: every sequence up to the stated depth over {create (plain / public namespaces / proxy), delete, rename, re-create, batches and transactions with repeated, re-stored and globally-known ids, meta-entity update of public namespaces, restart}; after every history the dataset list, the meta-entities in core.Dataset (exactly one live per existing dataset, only deleted ones for removed names, name and settings carried, items = distinct ids ever stored per the reference model) and GetDatasetDetails are compared; one long history with 1003 (thorough: 2100) datasets, two of them deleted and one re-created, before and after a restart. SCHED: concurrent writers whose counter updates funnel through core.Dataset, final catalogue compared"
 		r.Assumptions = []string{"badger transactions are linearizable", "all observation points are quiescent"}
 		pool := model.Pool(0)
 		pi := func(n string) int { return model.PoolIndex(pool, n) }
@@ -756,6 +814,28 @@ func init() {
 			depth, budget = 7, 2400
 		}
 		engine.RunSeq(r, engine.SeqSpec{Name: "c19-seq", WorkerArgs: []string{"worker", "cat"}, Alphabet: vOpsJSON(alpha), Depth: depth, Budget: secs(budget)})
+		// one long history: a catalogue beyond the page size the manager uses internally (1000)
+		{
+			n := 1003
+			if !r.Quick() {
+				n = 2100
+			}
+			pl := &engine.Pool{N: 1, Args: []string{"worker", "cat-large"}, Timeout: 600 * time.Second}
+			out := pl.Do([]json.RawMessage{json.RawMessage(fmt.Sprintf(`{"n":%d}`, n))}, nil)
+			var lr engine.SeqResult
+			if out[0].Err != "" || json.Unmarshal(out[0].Out, &lr) != nil {
+				r.Cap("c19-large: worker problem " + out[0].Err)
+			} else {
+				for _, v := range lr.Viol {
+					v.Engine = "ENUM:c19-large"
+					v.Replay = map[string]interface{}{"worker": []string{"worker", "cat-large"}, "n": n}
+					r.AddViolation(v)
+				}
+				r.Evaluations += lr.Checks
+				r.Traces++
+				r.AddPart(map[string]interface{}{"engine": "ENUM", "name": "c19-large-catalogue", "datasets": n, "checks": lr.Checks})
+			}
+		}
 		b := func(ds string, es ...VEnt) VOp { return VOp{K: "batch", DS: ds, Ents: es} }
 		e := func(id, c string) VEnt { return VEnt{ID: id, C: pi(c)} }
 		scs := []SchedScenario{
